@@ -246,7 +246,9 @@ func ruleNoChanLen(pkgs []string) func(c *Ctx, r *Rep, tier string) {
 								if cc, ok := isBuiltinCall(x, b); ok && len(cc.Args) == 1 {
 									if _, isCh := cc.Args[0].Type().Underlying().(*types.Chan); isCh {
 										usesChan = true
-										why += " " + b + "() of a channel at " + c.Pos(x.Pos()) + ";"
+										if how := decidesOn(x, f); how != "" {
+											why += " " + b + "() of a channel at " + c.Pos(x.Pos()) + " " + how + ";"
+										}
 									}
 								}
 							}
@@ -732,4 +734,41 @@ func freshSlice(v ssa.Value, d int, seen map[ssa.Value]bool) bool {
 		return true
 	}
 	return false
+}
+
+// decidesOn: the value reaches a branch condition of f, or is handed out by an
+// unexported function (whose callers may branch on it). A value that is only
+// reported by an exported accessor decides nothing.
+func decidesOn(v ssa.Value, f *ssa.Function) string {
+	seen := map[ssa.Value]bool{}
+	work := []ssa.Value{v}
+	for len(work) > 0 {
+		x := work[len(work)-1]
+		work = work[:len(work)-1]
+		if seen[x] {
+			continue
+		}
+		seen[x] = true
+		refs := x.Referrers()
+		if refs == nil {
+			continue
+		}
+		for _, ref := range *refs {
+			switch y := ref.(type) {
+			case *ssa.If:
+				return "decides a branch"
+			case *ssa.Return:
+				if f.Object() == nil || !f.Object().Exported() {
+					return "is handed to the callers of an unexported function"
+				}
+			case *ssa.Store, *ssa.Send, *ssa.MapUpdate:
+				return "is stored where a later decision can read it"
+			case *ssa.Call:
+				return "is passed on to " + y.Call.Value.Name()
+			case ssa.Value:
+				work = append(work, y)
+			}
+		}
+	}
+	return ""
 }
